@@ -172,7 +172,16 @@ pub fn interval(args: &[String]) {
                         if c.method != Method::RK4 && !sol.y.iter().all(|v| finite(v)) { fail("c03-nonfinite-success", "Success with non-finite values".into()); }
                     }
                     Status::UserInterrupt => { if !terminal_fired { fail("c03-status", "UserInterrupt without a terminal event".into()); } }
-                    _ => {}
+                    st => {
+                        // "Success exactly when the whole interval was covered": a run that stopped with its last sample at xend
+                        // to rounding has covered it
+                        if !use_teval {
+                            let last = *sol.t.last().unwrap();
+                            if (last - c.xend).abs() <= 4.0 * f64::EPSILON * c.xend.abs().max(c.x0.abs()) && sol.t.len() > 1 {
+                                fail("c03-covered-not-success", format!("status {:?} although the last sample t = {} is xend = {} to rounding", st, last, c.xend));
+                            }
+                        }
+                    }
                 }
                 // C18
                 if sol.nfev != p.count.get() { fail("c18-nfev", format!("nfev = {} but the stepper made {} right-hand-side evaluations", sol.nfev, p.count.get())); }
@@ -217,6 +226,42 @@ pub fn interval(args: &[String]) {
             }
         }
         out("iv", 100000 + case, &c, "stiff", key, &why, &extra);
+    }
+    // max_step dividing the span (with the controller sitting on max_step): the steps add up to xend minus a rounding
+    // remainder; the run must still end with Success at xend
+    {
+        let mut k = 0;
+        for method in ADAPTIVE {
+            for (x0, span) in [(0.0, 1.0), (0.0, 0.7), (2.0, 1.0), (0.0, 1e-5), (-1.0, 0.3)] {
+                for div in [10.0, 7.0, 3.0, 50.0] {
+                    for dirn in [1.0, -1.0] {
+                        let xend = x0 + dirn * span;
+                        let ms = span / div;
+                        let c = Cfg { kind: Kind::Slow, method, x0, xend, rtol: 1e-3, atol: 1e-6, first: Some(ms), maxstep: Some(ms), nmax: None };
+                        let p = Prob::new(Kind::Slow);
+                        let res = catch_unwind(AssertUnwindSafe(|| solve_ivp(&p, x0, xend, &p.y0(), c.opts())));
+                        let (mut why, mut key, mut extra) = (String::new(), "", String::new());
+                        match res {
+                            Err(_) => { why = "solve_ivp panicked".into(); key = "c04-hang-or-panic"; }
+                            Ok(Err(_)) => { extra = "\"status\":\"Err\",".into(); }
+                            Ok(Ok(sol)) => {
+                                let last = *sol.t.last().unwrap();
+                                extra = format!("\"status\":\"{:?}\",\"n\":{},\"last\":{},", sol.status, sol.t.len(), jnum(last));
+                                if sol.status != Status::Success {
+                                    key = "c03-covered-not-success";
+                                    why = format!("status {:?} with last sample t = {} (xend = {}): max_step = first_step = span/{} on a slow problem", sol.status, last, xend, div);
+                                } else if (last - xend).abs() > 4.0 * f64::EPSILON * xend.abs().max(x0.abs()) {
+                                    key = "c03-success-not-reached";
+                                    why = format!("Success but the last sample is t = {} (xend = {})", last, xend);
+                                }
+                            }
+                        }
+                        out("iv", 200000 + k, &c, "maxstep-divides-span", key, &why, &extra);
+                        k += 1;
+                    }
+                }
+            }
+        }
     }
     // zero-length run
     let p = Prob::new(Kind::Harmonic);
